@@ -468,6 +468,20 @@ def _alone(unit):
     return not fails
 
 
+_PROBES = {"left": 40, "memo": {}}
+
+
+def _suffix(ctx, unit, fails):
+    """`:after_previous_call` iff the unit passes alone in a fresh process.  At most 40 fresh-process probes per
+    run; afterwards the verdict already seen for the same failure class is reused."""
+    key = fails[0][0]
+    if _PROBES["left"] > 0:
+        _PROBES["left"] -= 1
+        ctx.count("fresh_process_probes")
+        _PROBES["memo"][key] = ":after_previous_call" if _alone(unit) else ""
+    return _PROBES["memo"].get(key, "")
+
+
 def judge_history(ctx, case, out, units, replies):
     ctx.count(f"history:len:{len(case['steps'])}")
     for k in case.get("kinds", []):
@@ -511,7 +525,7 @@ def judge_history(ctx, case, out, units, replies):
         if info.get("excluded"):
             ctx.count("excluded_region_hits")
         if fails:
-            suffix = ":after_previous_call" if _alone(unit) else ""
+            suffix = _suffix(ctx, unit, fails)
             for klass, what in fails:
                 ctx.fail(FN, klass + suffix, what + (" [passes when run alone in a fresh process]" if suffix else ""), rep)
         else:
